@@ -120,7 +120,7 @@ fn scalar_prefix(rng: &mut Rng, len: usize, style: usize, level: f64) -> Vec<f64
 
 pub fn run(ctx: &Ctx) -> Report {
     let mut jobs = Vec::new();
-    let reps = ctx.pick(120usize, 2400usize);
+    let reps = ctx.pick(120usize, 14400usize);
     let mut idx = 0u64;
     for kind in N_KINDS.iter().chain(N1_KINDS.iter()) {
         for n in 1..=8usize {
